@@ -176,6 +176,9 @@ def generate(seed, tier):
                 start = MEM - n + 1 + rng.randint(1, min(n - 1, 40)) if n > 1 else MEM
             ops.append({"op": k, "chs": chs, "n": n, "dseed": rng.getrandbits(32), "start": start, "form": form,
                         "readback": rng.random() < 0.6})
+            if ops[-2].get("op") == "fault" if len(ops) >= 2 else False:
+                # natural reaction to a failed transfer: the user simply issues the same write again
+                ops.append(dict(ops[-1], readback=True))
         elif k == "get_data":
             n = _data_len(rng)
             ops.append({"op": k, "chs": chs, "n": n, "start": _start(rng, n),
